@@ -319,6 +319,10 @@ where
                     }
                     let sig = if taint[&root] {
                         "F7-minmax-zero-tie-amplified"
+                    } else if ref_taint_ext(&env.b.ctx, &order, &vals, false, true)[&root] {
+                        // rand / mix of a zero (or atan2(0, 0)): the interval
+                        // evaluator hashes the other zero's bit pattern
+                        "F6-interval-hash-of-zero"
                     } else if kind == 2 && gtaint[&root] {
                         "F12-grad-abs-negative-zero-amplified"
                     } else if nan_from_inf(env.b, root, &vals) {
@@ -573,15 +577,15 @@ impl Prop for P {
     fn plan(tier: Tier) -> Plan {
         match tier {
             Tier::Quick => Plan {
-                workers: 8,
-                cases_per_worker: 1200,
-                timeout_s: 1200,
+                workers: 16,
+                cases_per_worker: 15000,
+                timeout_s: 1800,
                 max_shrink_iters: 2000,
             },
             Tier::Thorough => Plan {
                 workers: 16,
-                cases_per_worker: 20000,
-                timeout_s: 7200,
+                cases_per_worker: 200000,
+                timeout_s: 14400,
                 max_shrink_iters: 2000,
             },
         }
@@ -604,5 +608,43 @@ impl Prop for P {
             "a parent/child mismatch downstream of a min/max tie between zeros of opposite sign is attributed to known finding F7, anything else is a violation",
             "x86_64 JIT only",
         ]
+    }
+}
+
+/// Debug helper: prints tapes, trace and values for a replay case (VM only)
+pub fn debug(case: &Case) {
+    use fidget_core::vm::VmFunction;
+    let b = build_dag(&case.dag);
+    let roots = crate::p01::roots_of(&b, &Some(case.outs.clone()));
+    let f = VmFunction::new(&b.ctx, &roots).unwrap();
+    println!("--- parent");
+    f.data().pretty_print();
+    let vm = f.vars();
+    let mut order = vec![usize::MAX; vm.len()];
+    for (i, v) in b.vars.iter().enumerate() {
+        if let Some(s) = vm.get(v) {
+            order[s] = i;
+        }
+    }
+    let mut cur: Vec<(f32, f32)> = order.iter().map(|i| (case.boxes[*i].0.0, case.boxes[*i].1.0)).collect();
+    let step = &case.steps[0];
+    for (k, i) in order.iter().enumerate() {
+        let (a, bfrac) = step.sub[*i % step.sub.len()];
+        let (lo, hi) = cur[k];
+        let x = sample_in(lo, hi, a.min(bfrac));
+        let y = sample_in(lo, hi, a.max(bfrac));
+        cur[k] = (x.min(y), x.max(y));
+    }
+    println!("box {cur:?}");
+    let t = f.interval_tape(Default::default());
+    let mut e = VmFunction::new_interval_eval();
+    let iv: Vec<Interval> = cur.iter().map(|(l, u)| Interval::new(*l, *u)).collect();
+    let (o, tr) = e.eval(&t, &iv).unwrap();
+    println!("interval out {o:?} trace {:?}", tr.map(|t| t.as_slice().to_vec()));
+    if let Some(tr) = tr {
+        let mut ws = Default::default();
+        let c = f.simplify(tr, Default::default(), &mut ws).unwrap();
+        println!("--- child");
+        c.data().pretty_print();
     }
 }
